@@ -704,7 +704,12 @@ func (vfs *OrefaFS) Rel(basepath, targpath string) (string, error) {
 func (vfs *OrefaFS) Remove(name string) error {
 	const op = "remove"
 
-	absPath, _ := vfs.Abs(name)
+	absPath := vfs.absPath(name)
+	if vfs.isRoot(absPath) {
+		// the root directory can't be removed.
+		return &fs.PathError{Op: op, Path: name, Err: vfs.err.InvalidArgument}
+	}
+
 	dirName, fileName := avfs.SplitAbs(vfs, absPath)
 
 	verifYield(&vfs.mu, true)
@@ -749,7 +754,23 @@ func (vfs *OrefaFS) RemoveAll(path string) error {
 		return nil
 	}
 
-	absPath, _ := vfs.Abs(path)
+	absPath := vfs.absPath(path)
+	if vfs.isRoot(absPath) {
+		// the root directory can't be removed : its content is removed.
+		verifYield(&vfs.mu, true)
+		vfs.mu.Lock()
+		defer vfs.mu.Unlock()
+
+		root := vfs.nodes[absPath]
+		for fileName, nd := range root.children {
+			vfs.removeAll(absPath+string(vfs.PathSeparator())+fileName, nd)
+		}
+
+		root.children = nil
+
+		return &fs.PathError{Op: "unlinkat", Path: path, Err: vfs.err.InvalidArgument}
+	}
+
 	dirName, fileName := avfs.SplitAbs(vfs, absPath)
 
 	verifYield(&vfs.mu, true)
@@ -795,8 +816,13 @@ func (vfs *OrefaFS) removeAll(absPath string, rootNode *node) {
 func (vfs *OrefaFS) Rename(oldname, newname string) error {
 	const op = "rename"
 
-	oAbsPath, _ := vfs.Abs(oldname)
-	nAbsPath, _ := vfs.Abs(newname)
+	oAbsPath := vfs.absPath(oldname)
+	nAbsPath := vfs.absPath(newname)
+
+	if vfs.isRoot(oAbsPath) || vfs.isRoot(nAbsPath) {
+		// the root directory can't be renamed or replaced.
+		return &os.LinkError{Op: op, Old: oldname, New: newname, Err: vfs.err.InvalidArgument}
+	}
 
 	if oAbsPath == nAbsPath {
 		verifYield(&vfs.mu, false)
